@@ -218,7 +218,7 @@ func newWithParams(index, sign int, a uint, k *big.Int, split SquareSplitter, nS
 	if sign != 1 && sign != -1 {
 		return nil, ErrUnsupportedSign
 	}
-	if a > math.MaxInt64 {
+	if uint64(a) > math.MaxInt64 {
 		return nil, errors.New("factor too large")
 	}
 
